@@ -10,6 +10,9 @@ CHECKS = {
  "C02": ("exploration", "differential monitoring: reorged node vs linear twin vs pure ledger, byte-level served views",
          "Complete served views (tip state, index, stored blocks with supplements, element buckets incl. expiration lists, served elements with Merkle proofs, window ids, next block's expiring contracts) of a node driven through forks, reorgs and failed reorgs are compared byte for byte with a fresh node fed the final best chain linearly, at PRNG-chosen points of generated histories in all regimes, for checkpoint-initialised stores, and in the dedicated expiration-order scenario (known finding KF-C02-1).",
          "Tree-bucket nodes beyond the leaf count are excluded (never read by contract; served proofs are compared instead); v1 contracts get distinct window ends outside the order scenarios.", "§3 C02"),
+ "C14": ("exploration", "API-contract monitoring of pool submission/lookup on generated pool states",
+         "Generated pool states holding v1 and v2 transactions together; after every submission (fresh, partly known, all known, conflicting with the pool at position k, invalid at position k) the listing is compared with the all-or-nothing expectation, the known flag with its definition, caller memory with its byte image and the pool with itself after scribbling over submitted/returned values; both lookup functions are called with every v1 id, v2 id and random ids under a panic guard.",
+         "Transactions are produced and labelled by the pure generator (core/consensus); basis = tip for v2 submissions here (rebasing is C13).", "§3 C14"),
  "C17": ("exploration", "exhaustive operation-sequence enumeration against an overlay-map reference model on every backend",
          "Every operation sequence over a 9-operation alphabet up to length 5 (quick) / 7 (thorough) is executed on MemDB, CacheDB over MemDB/CacheDB/Bolt and BoltChainDB, comparing Get of every key and a full Iter after each operation and the durable image at the end with the model; plus long PRNG sequences. Exhaustive within the stated bound, sampled beyond it.",
          "Trusts bbolt's transaction semantics; bucket handles are re-fetched per operation as DBStore does; keys and values non-empty.", "§3 C17"),
